@@ -362,7 +362,8 @@ def seam_a(res, t):
 # -- seam (b): real machines -----------------------------------------------------------------------
 
 PROVIDERS = ("method", "attribute", "property", "model-attribute", "listener-attribute",
-             "machine+listener", "async-method")
+             "machine+listener", "async-method", "attribute-none", "model-attribute-none",
+             "listener-attribute-none", "machine+listener-attribute-none")
 
 
 def build_machine(entries, names, provider, unless_entries=(), any_style=False):
@@ -409,6 +410,15 @@ def build_machine(entries, names, provider, unless_entries=(), any_style=False):
             ns[nm] = getter(nm, "machine")
         elif provider in ("attribute",):
             ns[nm] = "UNSET"           # overwritten per valuation on the instance
+        elif provider == "attribute-none":
+            ns[nm] = None              # exactly None when the machine is instantiated
+        elif provider == "model-attribute-none":
+            mod_ns[nm] = None
+        elif provider == "listener-attribute-none":
+            lis_ns[nm] = None
+        elif provider == "machine+listener-attribute-none":
+            ns[nm] = getter(nm, "machine")
+            lis_ns[nm] = None
         elif provider == "property":
             ns[nm] = property(getter(nm, "machine"))
         elif provider == "model-attribute":
@@ -426,6 +436,10 @@ def instantiate(cls, Mod, Lis):
     return cls(Mod(), listeners=[Lis()])
 
 
+PLAIN_ATTR = {"attribute": "machine", "attribute-none": "machine",
+              "model-attribute-none": "model", "listener-attribute-none": "listener"}
+
+
 def seam_b_valid(res, t, provider):
     names = names_of(t)
     if not names:
@@ -439,7 +453,9 @@ def seam_b_valid(res, t, provider):
                 cls, Mod, Lis, reads, holder = build_machine(
                     [expr] if polarity == "cond" else [], names, provider,
                     [expr] if polarity == "unless" else [])
-                sm = instantiate(cls, Mod, Lis)
+                mod_o, lis_o = Mod(), Lis()
+                sm = cls(mod_o, listeners=[lis_o])
+                target = {"machine": sm, "model": mod_o, "listener": lis_o}
             except InvalidDefinition as e:
                 res.stats["evaluations"] += 1
                 res.violation({"category": "valid-expression-rejected", "compact": " " not in expr,
@@ -454,6 +470,9 @@ def seam_b_valid(res, t, provider):
                               f"[{provider}] {polarity}={expr!r}: {type(e).__name__}: {e}")
                 continue
             for vals in valuations(names, t)[:: (1 if len(names) < 2 else 3)]:
+                if provider == "machine+listener-attribute-none":
+                    _two_providers_attr(res, sm, lis_o, t, expr, py, polarity, vals, holder, reads)
+                    continue
                 if provider == "machine+listener":
                     # conjunction over the providers: machine value first, listener second
                     pairs = [dict(zip(names, combo)) for combo in
@@ -464,9 +483,9 @@ def seam_b_valid(res, t, provider):
                     pairs = [vals]
                 for pv in pairs:
                     holder["vals"] = pv
-                    if provider == "attribute":
+                    if provider in PLAIN_ATTR:
                         for n in names:
-                            object.__setattr__(sm, n, pv[n])
+                            object.__setattr__(target[PLAIN_ATTR[provider]], n, pv[n])
                     del reads[:]
                     sm.current_state_value = "st_a"
                     try:
@@ -527,7 +546,7 @@ def seam_b_valid(res, t, provider):
                     if polarity == "unless" and exp[0] == "ok":
                         exp = ("ok", not exp[1])
                     res.stats["evaluations"] += 1
-                    if provider == "attribute":
+                    if provider in PLAIN_ATTR:
                         got_reads = exp_reads      # plain attributes cannot record reads
                     if exp != fired or exp_reads != got_reads:
                         cat = classify(t, expr, exp, fired, exp_reads, got_reads)
@@ -539,6 +558,39 @@ def seam_b_valid(res, t, provider):
                                       f"reading {got_reads}")
                     else:
                         res.hist[f"e2e-{polarity}:{exp[1]}"] += 1
+
+
+def _two_providers_attr(res, sm, lis_o, t, expr, py, polarity, vals, holder, reads):
+    """The machine provides every name as a (recording) method, the listener as a plain
+    attribute that was exactly None when it was attached.  Machine values stay permissive, the
+    listener's attribute takes the valuation: the outcome must follow the listener's values."""
+    names = names_of(t)
+    want_true = polarity == "cond"
+    if t[0] != "atom":
+        return       # expressions over two providers: covered by "machine+listener"
+    nm = t[1]
+    for mval in (True, False):
+        holder["vals"] = {n: mval for n in names}
+        object.__setattr__(lis_o, nm, vals[nm])
+        del reads[:]
+        sm.current_state_value = "st_a"
+        try:
+            sm.send("go")
+            fired = sm.current_state_value == "st_b"
+        except sm.TransitionNotAllowed:
+            fired = False
+        exp = (bool(mval) == want_true) and (bool(vals[nm]) == want_true)
+        res.stats["evaluations"] += 1
+        if fired != exp:
+            res.violation({"category": "plain-name-two-providers", "seam": "b",
+                           "provider": "machine+listener-attribute-none"},
+                          {"seam": "b", "tree": t, "expr": expr, "vals": repr(vals),
+                           "provider": "machine+listener-attribute-none", "polarity": polarity},
+                          f"[machine method + listener attribute that was None when attached] "
+                          f"{polarity}={expr!r}: machine says {mval!r}, listener attribute is "
+                          f"{vals[nm]!r}: expected fires={exp}, observed fires={fired}")
+        else:
+            res.hist[f"e2e-{polarity}:{exp}"] += 1
 
 
 # -- cond/unless lists (conjunction of entries) ------------------------------------------------
